@@ -200,6 +200,26 @@ def i3_inline(c1: int, c2: int, c3: int) -> bool:
     return mistletoe.markdown(s) == '<p>' + html.escape(s, quote=False) + '</p>\n'
 
 
+I4_SKELETONS = {'wrap': '{0}a{0}', 'spaced': 'a {0} b {0} c', 'prefix': '{0}5 a, then {0}7 b', 'intraword': 'a{0}b c{0}d', 'suffix': 'a{0} b{0}',
+                'mixed': 'x{0}{0}y z{0}w', 'three': '{0}a {0}b {0}c', 'nested': '({0}a [{0}b) c'}
+
+
+@lemma('I4.repeated', 'C14', quick=[{'sk': k} for k in sorted(I4_SKELETONS)], timeout=600, per_path=120,
+       covers=['span_tokenizer.py:tokenize', 'core_tokens.py:find_core_tokens', 'span_token.py:Strikethrough', 'html_renderer.py:HtmlRenderer.render_raw_text'],
+       note="one-line prose skeletons in which the SAME symbolic character (over the property's inert-candidate characters) occurs two or three times -- "
+            "what pairs up is markup -- filtered by the independent inertness predicate: rendered as exactly that text, escaped, in one paragraph")
+def i4_repeated(c1: int) -> bool:
+    """
+    pre: all_in(I3_ALPH, 1, c1) and c1 != 32
+    pre: inert(I4_SKELETONS[P('sk')].format(chr(c1)))
+    post: _
+    """
+    import html
+    import mistletoe
+    s = I4_SKELETONS[P('sk')].format(chr(c1))
+    return mistletoe.markdown(s) == '<p>' + html.escape(s, quote=False) + '</p>\n'
+
+
 def witness_empty_list_marker():
     """(fixed) \\d{0,9} in List.pattern / ListItem.pattern made '. x' and ') x' bullet-less list items"""
     import mistletoe
